@@ -381,10 +381,10 @@ func diagnoseCrash(self, id, tier string, seed uint64, st *wstate, nw, runs int,
 			class = "hang"
 		case strings.Contains(r.stderr, "fatal error:"):
 			class = "fatal"
-		case strings.Contains(r.stderr, "harness"):
-			return VRec{}, false
 		default:
-			class = "fatal"
+			// an unrecovered Go panic in the worker (harness trouble) or
+			// anything else: infrastructure, never a violation
+			return VRec{}, false
 		}
 	}
 	if culprit < 0 {
